@@ -142,8 +142,22 @@ def search(ctx):
             dkw["j"] = float(dkw["current"] / (np.pi * dkw["r_e"] ** 2) * 1e-4 * rng.choice([0.3, 2.5]))
         z = int(rng.choice([2, 6, 10, 18])); q = int(rng.integers(1, min(z, 4) + 1))
         V += stmt_sim(z, q, dkw, float(10 ** rng.uniform(-4, -2)), rng, cx=bool(k % 2))
-        V += stmt_ei_only(int(rng.choice([2, 6, 10])), dkw, rng, gas=bool(k % 2), cx=bool((k // 2 + 1) % 2 if n > 2 else (k + 1) % 2))
-        ctx.count("simulations", 2)
+        gas = bool(k % 2); z_ei = int(rng.choice([2, 6, 10])); dkw_ei = dkw
+        if gas:
+            # room-temperature gas (kT = 26 meV): every ion it breeds starts that cold, so the grid has to resolve a 26 meV cloud of the
+            # highest charge state, z dphi_1 / 500 <= kT (the limit C03 names); finer grid, redrawn until it does
+            from ebisim.simulation import Device
+            dkw_ei = None
+            for _ in range(8):
+                cand = gens.device_kwargs(rng, n_grid=200)
+                d_ = Device.get(**cand)
+                if z_ei * abs(d_.rad_phi_uncomp[1] - d_.rad_phi_uncomp[0]) / 500 <= 0.5 * 0.02585:
+                    dkw_ei = cand; break
+        if dkw_ei is not None:
+            V += stmt_ei_only(z_ei, dkw_ei, rng, gas=gas, cx=bool((k // 2 + 1) % 2 if n > 2 else (k + 1) % 2)); ctx.count("simulations")
+        else:
+            ctx.count("ei_only_gas_unresolvable_skipped")
+        ctx.count("simulations", 1)
         if len(V) > 5: break
     # dielectronic recombination included: beam energy on a tabulated resonance, two devices that differ only in the energy spread, run one
     # after the other in this process (each must agree with the basic simulation at its own spread)
